@@ -130,9 +130,11 @@ func compileDDP(tc *Toolchain, kddp, dir, root, exe string, cfg BuildCfg, simhea
 	if simheap {
 		args = append(args, "--gcc-optionen", wrapFlags(tc))
 	}
-	ctx, cancel := context.WithTimeout(context.Background(), 120*time.Second)
+	// the limit is CPU time (120 s), not wall-clock time: how long a process waits for a core on a loaded machine is not
+	// a property of the compiler; the wall-clock limit is only a backstop
+	ctx, cancel := context.WithTimeout(context.Background(), 15*time.Minute)
 	defer cancel()
-	cmd := exec.CommandContext(ctx, kddp, args...)
+	cmd := exec.CommandContext(ctx, "/bin/sh", append([]string{"-c", `ulimit -S -t 120; exec "$0" "$@"`, kddp}, args...)...)
 	cmd.Dir = dir
 	cmd.Env = append(append(os.Environ(), "DDPPATH="+tc.Dir), extraEnv...)
 	out, err := cmd.CombinedOutput()
@@ -147,9 +149,15 @@ func compileDDP(tc *Toolchain, kddp, dir, root, exe string, cfg BuildCfg, simhea
 }
 
 func runExe(dir, exe string, stdin []byte, args []string, pol *HeapPolicy, reportPath string, timeout time.Duration) *ExecResult {
-	ctx, cancel := context.WithTimeout(context.Background(), timeout)
+	// timeout is a limit on CPU time (SIGXCPU), so that the verdict "does not terminate" does not depend on how loaded
+	// the machine is; wall-clock time is limited far above it, for programs that stall without computing
+	cpu := int(timeout / time.Second)
+	if cpu < 1 {
+		cpu = 1
+	}
+	ctx, cancel := context.WithTimeout(context.Background(), 15*timeout+2*time.Minute)
 	defer cancel()
-	cmd := exec.CommandContext(ctx, exe, args...)
+	cmd := exec.CommandContext(ctx, "/bin/sh", append([]string{"-c", fmt.Sprintf(`ulimit -S -t %d; exec "$0" "$@"`, cpu), exe}, args...)...)
 	cmd.Dir = dir
 	env := []string{"PATH=/usr/bin:/bin", "HOME=/nonexistent", "LANG=C", "DDPSIM_TEST_ENV=wert"}
 	if pol != nil {
@@ -173,6 +181,10 @@ func runExe(dir, exe string, stdin []byte, args []string, pol *HeapPolicy, repor
 			res.Exit = ee.ExitCode()
 			if ws, ok := ee.Sys().(syscall.WaitStatus); ok && ws.Signaled() {
 				res.Signal = ws.Signal().String()
+				if ws.Signal() == syscall.SIGXCPU {
+					res.TimedOut = true
+					res.Exit = -1
+				}
 			}
 		} else {
 			res.Exit = -1
